@@ -519,8 +519,15 @@ def sorted_vec(interp, seq: Vec, kind="list"):
         v = to_num(src(perm(zint(k))))
         return [f(zint(k)) == (v.z if is_int else as_real(v))]
     res.buf.facts = link
+    ctx.binder_stack.append([])
+    try:
+        lk = link(i)[0]
+    finally:
+        ctx.binder_stack.pop()
+    ctx.assume(z3.ForAll([i], z3.Implies(z3.And(0 <= i, i < n), lk), patterns=[f(i)]))
     res.perm = perm
     res.perm_inv = inv
+    ctx.__dict__.setdefault("sorts", []).append({"perm": perm, "inv": inv, "n": n, "src": src, "res": f})
     return res
 
 
@@ -754,7 +761,7 @@ def slice_bounds(interp, lo, hi, step, length):
 def vec_slice(interp, v: Vec, lo, hi, step):
     ctx = interp.ctx
     start, count, st = slice_bounds(interp, lo, hi, step, v.length)
-    if start == "reverse":
+    if isinstance(start, str):
         src = snapshot(v)
         L = v.length
         return Vec(L, lambda k: src(z3.simplify(zint(L) - 1 - zint(k))), kind=v.kind, elem=v.elem)
@@ -801,7 +808,7 @@ def _vec_setitem(interp, self: Vec, args, kwargs):
         return NONE
     if isinstance(idx, tuple) and idx[0] == "slice":
         start, count, st = slice_bounds(interp, idx[1], idx[2], idx[3], self.length)
-        if start == "reverse":
+        if isinstance(start, str):
             raise Unsupported("reverse slice store")
         if self.kind != "ndarray":
             raise Unsupported("slice assignment to a list")
@@ -1014,3 +1021,222 @@ def eval_dictcomp(interp, node, frame):
         if ok:
             pairs.append((interp.eval(node.key, fr), interp.eval(node.value, fr)))
     return make_dict(interp, pairs)
+
+
+# ---------------------------------------------------------------------------------------------
+# structured strings: a concatenation of literal parts and symbolic parts with a known character set
+# (used for radial-grid texts such as  "linspace" "(" <numbers> ")" ; contract-provided)
+# ---------------------------------------------------------------------------------------------
+
+def structured(parts, ctx=None):
+    """parts: list of Str; symbolic parts carry meta['charset'] (set of characters they may contain)"""
+    merged = []
+    for p in parts:
+        if p.py is not None and merged and merged[-1].py is not None:
+            merged[-1] = Str(py=merged[-1].py + p.py)
+        elif p.py == "":
+            continue
+        else:
+            merged.append(p)
+    if not merged:
+        return Str(py="")
+    if len(merged) == 1:
+        return merged[0]
+    z = z3.Const(f"sstr!{id(merged) % 100000}_{len(INTERNED)}_{len(merged)}", StrSort)
+    return Str(z=z, meta={"struct": merged})
+
+
+def _struct_parts(s: Str):
+    if s.py is not None:
+        return [s]
+    if "struct" in s.meta:
+        return s.meta["struct"]
+    return [s]
+
+
+def struct_contains(s: Str, needle: str):
+    """decide `needle in s` for a structured string, or None if undecidable by the character-set argument"""
+    parts = _struct_parts(s)
+    for p in parts:
+        if p.py is not None and needle in p.py:
+            return True
+    # an occurrence must avoid every literal part's... -> check that no occurrence can exist
+    # build for every position class the set of possible characters
+    for p in parts:
+        if p.py is None and "charset" not in p.meta:
+            return None
+    # occurrence lies across a window of consecutive parts; literal parts contribute fixed chars.
+    # Conservative decision: every symbolic part lacks at least one char of each needle substring that could be
+    # placed in it.  Simplest sufficient condition: no char of the needle belongs to any symbolic part's charset
+    # except chars that... -> require: for each symbolic part, (set(needle) & charset) == set()  OR the needle
+    # cannot be completed by neighbouring literals.
+    sym_ok = True
+    for p in parts:
+        if p.py is None:
+            inter = set(needle) & set(p.meta["charset"])
+            if inter:
+                # any occurrence overlapping this part uses only chars from `inter` there; the rest must come from
+                # neighbouring literal parts: check all alignments concretely with a wildcard model
+                sym_ok = False
+    if sym_ok:
+        # occurrence can only lie inside the concatenation of literal parts separated by symbolic parts that cannot
+        # contribute any character of the needle: test each maximal literal run
+        return False
+    # wildcard search: symbolic part = any string over its charset; needle chars not in charset cannot be there.
+    # An occurrence overlapping a symbolic part with k chars inside it: all those k needle chars must be in charset.
+    n = len(needle)
+    flat = []      # sequence of ("lit", ch) or ("sym", charset)
+    for p in parts:
+        if p.py is not None:
+            flat.extend(("lit", ch) for ch in p.py)
+        else:
+            flat.append(("sym", frozenset(p.meta["charset"])))
+
+    def match(fi, ni):
+        # can needle[ni:] be matched starting at flat position fi (sym = zero or more chars of its charset)
+        if ni == n:
+            return True
+        if fi == len(flat):
+            return False
+        kind, v = flat[fi]
+        if kind == "lit":
+            return needle[ni] == v and match(fi + 1, ni + 1)
+        # symbolic: consume 0..k chars
+        if match(fi + 1, ni):
+            return True
+        j = ni
+        while j < n and needle[j] in v:
+            j += 1
+            if match(fi + 1, j) or j == n:
+                return True
+        return False
+    for start in range(len(flat)):
+        kind, v = flat[start]
+        if kind == "lit":
+            if match(start, 0):
+                return None        # possible but not certain (depends on the symbolic content)
+        else:
+            if needle[0] in v and match(start, 0):
+                return None
+    return False
+
+
+_old_contains = contains
+
+
+def contains(interp, container, x):      # noqa: F811
+    if isinstance(container, Str) and container.py is None and "struct" in container.meta and isinstance(x, Str) and x.py is not None:
+        r = struct_contains(container, x.py)
+        if r is None:
+            raise Unsupported(f"cannot decide {x.py!r} in a structured string")
+        return lift(r)
+    return _old_contains(interp, container, x)
+
+
+def struct_split(interp, s: Str, sep: str, maxsplit: int):
+    parts = _struct_parts(s)
+    if len(sep) != 1:
+        raise Unsupported("structured split with a multi-character separator")
+    toks = [[]]
+    splits = 0
+    for p in parts:
+        if p.py is not None:
+            cur = ""
+            for ch in p.py:
+                if ch == sep and (maxsplit < 0 or splits < maxsplit):
+                    if cur:
+                        toks[-1].append(Str(py=cur))
+                    cur = ""
+                    toks.append([])
+                    splits += 1
+                else:
+                    cur += ch
+            if cur:
+                toks[-1].append(Str(py=cur))
+        else:
+            cs = p.meta.get("charset")
+            if cs is None or (sep in cs and (maxsplit < 0 or splits < maxsplit)):
+                raise Unsupported("structured split: a symbolic part may contain the separator")
+            toks[-1].append(p)
+    out = [structured(t) for t in toks]
+    return Vec(len(out), kind="list", elem="str", items=out)
+
+
+_old_split = METHODS[("str", "split")]
+
+
+@method("str", "split")
+def _str_split2(interp, self: Str, args, kwargs):
+    if self.py is None and ("struct" in self.meta or "charset" in self.meta) and args and args[0].py is not None:
+        ms = conc(args[1].z) if len(args) > 1 else -1
+        return struct_split(interp, self, args[0].py, ms)
+    return _old_split(interp, self, args, kwargs)
+
+
+@lib("ast.literal_eval")
+def _literal_eval(interp, args, kwargs):
+    s = args[0]
+    if isinstance(s, Str) and s.py is not None:
+        import ast as _ast
+        try:
+            return lift(_ast.literal_eval(s.py))
+        except (ValueError, SyntaxError) as e:
+            raise PyRaise(type(e).__name__, str(e))
+    if isinstance(s, Str) and "literal" in s.meta:
+        interp.stats.setdefault("assumed", set()).add("ast.literal_eval returns the value of the literal text")
+        return s.meta["literal"]
+    raise Unsupported("literal_eval of a string without a literal model")
+
+
+class Digest(Val):
+    """md5 digest / hex text / integer prefix: an uninterpreted function of exactly the hashed array's content.
+    `source` is the hashed vector (identity + version at hashing time) -- used for the data-flow obligation."""
+
+    def __init__(self, source, version, stage):
+        self.source = source
+        self.version = version
+        self.stage = stage
+
+
+@lib("hashlib.md5")
+def _md5(interp, args, kwargs):
+    v = args[0]
+    if not isinstance(v, Vec):
+        raise Unsupported("md5 of a non-array")
+    return Digest(v, v.buf.version, "md5")
+
+
+@method("Digest", "hexdigest")
+def _hexdigest(interp, self, args, kwargs):
+    return Digest(self.source, self.version, "hex")
+
+
+@method("Digest", "__getitem__")
+def _digest_getitem(interp, self, args, kwargs):
+    return Digest(self.source, self.version, self.stage + "[slice]")
+
+
+_old_int = LIB["builtins.int"].impl
+
+
+@lib("builtins.int")
+def _b_int2(interp, args, kwargs):
+    if args and isinstance(args[0], Digest):
+        return Digest(args[0].source, args[0].version, args[0].stage + "->int")
+    return _old_int(interp, args, kwargs)
+
+
+@method("str", "encode")
+def _str_encode(interp, self: Str, args, kwargs):
+    return self
+
+
+_old_md5 = LIB["hashlib.md5"].impl
+
+
+@lib("hashlib.md5")
+def _md5_2(interp, args, kwargs):
+    v = args[0]
+    if isinstance(v, Str):
+        return Digest(v, 0, "md5")
+    return _old_md5(interp, args, kwargs)
